@@ -115,6 +115,8 @@ CASES = [
     ("compound assignment: `-=` printed as `+=`", "src/formatters/luau.rs", "        MinusEqual = \" -= \",", "        MinusEqual = \" += \",", "assign", "all", "C02.compound_op_prints_the_operator"),
     ("compound assignment: value and variable swapped is a type error, the value formatted twice is not", "src/formatters/luau.rs", "    CompoundAssignment::new(lhs, compound_operator, rhs)", "    CompoundAssignment::new(lhs, compound_operator, format_expression(ctx, &Expression::Var(compound_assignment.lhs().to_owned()), shape))", "assign", "all", "C02.compound_assignment_same"),
     ("goto: the label is formatted from the goto token", "src/formatters/lua52.rs", "    let label_name = format_token_reference(ctx, goto.label_name(), shape);\n\n    Goto::new(label_name)", "    let label_name = format_token_reference(ctx, goto.goto_token(), shape);\n\n    Goto::new(label_name)", "assign", "all", "C02.goto_label_same"),
+    ("parameters: the last parameter of a one-line list is dropped", "src/formatters/functions.rs", "        formatted_parameters.push(Pair::new(parameter, punctuation));", "        if punctuation.is_some() { formatted_parameters.push(Pair::new(parameter, punctuation)); }", "collapse", "default", "C02.function_parameters_loop"),
+    ("parameters: `...` becomes a name", "src/formatters/functions.rs", "        Parameter::Ellipsis(token) => Parameter::Ellipsis(fmt_symbol!(ctx, token, \"...\", shape)),", "        Parameter::Ellipsis(token) => Parameter::Name(fmt_symbol!(ctx, token, \"...\", shape)),", "collapse", "default", "C02.parameter_same"),
     # a predicate moved into a new helper next to the function: the helper is inlined (gen.InlineHelper) and verified as part of the caller
     ("helper: the sugar decision moved into a helper that forgets the Input exception", FU, [FA_DOC, FA_STR, FA_TAB], [HELPER_BAD + FA_DOC, FA_STR_H, FA_TAB_H], "args", "default", "C11.input_keeps_form"),
     ("harmless: the sugar decision moved into a helper (with a binding and an early return)", FU, [FA_DOC, FA_STR, FA_TAB], [HELPER_OK + FA_DOC, FA_STR_H, FA_TAB_H], "args", "default", "ok"),
